@@ -74,6 +74,7 @@ package federation
 // dereference) in the entity resolvers and the helpers they call (D34: nested @requires selections were read with
 // unchecked assertions); user resolvers may panic, which is contained (noescape).
 //@ family fedentity [C20,C04,C10]
+//@   callsite representationField: requires argtext0 == "rep"
 //@   replay fedRequiresShape.go.tmpl for nopanic
 //@   requires ec != nil
 //@   userdata entity
@@ -103,6 +104,14 @@ package federation
 // that go through the representations / the returned entities nothing fails the whole group - a representation that
 // cannot be coerced is reported and skipped; the group as a whole only fails with its batch resolver
 //@   inloop ensures res0 == nil
+// key and @requires values of an entity come from the representation at the same position of the usable batch (the
+// one whose index the element is written at), in every generated flavour of the code
+//@   callsite representationField: requires argtext0 == "rep.entity" || argtext0 == "usable[i].entity"
+// representations that use another key are resolved by their own resolver before anything can end this call early
+//@   ghost others = false
+//@   at! `append(other, rep)` ghost others = true
+//@   loop *: invariant others == (len(other) > 0)
+//@   ensures !panicked && others ==> calls(resolveManyEntities) >= 1
 //@   ghost narrowed = false
 //@   at! `append(same, rep)` requires err == nil && name == resolverName
 //@   at! `append(other, rep)` requires err == nil && name != resolverName && resolverName != ""
